@@ -391,4 +391,33 @@ def verdictFor (resolve : Resolver) (V : List Rec) (T : Txn) (older : Log) (oid 
 /-- staged records of the open transaction `utid` are well formed relative to the committed file `F` -/
 def StagedOK (utid : Nat) (F S : List Rec) : Prop := ∀ s ∈ S, RecOK utid F s
 
+/-! ### histories: every log the storage can reach by ordinary commits and undo transactions -/
+
+inductive Op where
+  | commit (tid : Nat) (stores : List (Nat × Bytes))    -- stores newest first
+  | undo (utid : Nat) (ids : List Nat)
+
+def applyOp (resolve : Resolver) (L : Log) : Op → Log
+  | .commit tid stores => commitTxn L tid stores
+  | .undo utid ids => (undoTxn resolve L utid ids).1
+
+def opTid : Op → Nat
+  | .commit tid _ => tid
+  | .undo utid _ => utid
+
+/-- tids grow (`tpc_begin` guarantees it) and pickles are not empty -/
+def OpOK (L : Log) (o : Op) : Prop :=
+  (∀ t ∈ L, t.tid < opTid o) ∧
+  match o with
+  | .commit _ stores => ∀ s ∈ stores, s.2 ≠ []
+  | .undo _ _ => True
+
+def run (resolve : Resolver) : Log → List Op → Log
+  | L, [] => L
+  | L, o :: ops => run resolve (applyOp resolve L o) ops
+
+def OpsOK (resolve : Resolver) : Log → List Op → Prop
+  | _, [] => True
+  | L, o :: ops => OpOK L o ∧ OpsOK resolve (applyOp resolve L o) ops
+
 end ZodbModel.Undo
